@@ -110,6 +110,12 @@ def overlap_cases(draw, tier):
     prog = draw(G.programs(feats=BASE_FEATS, min_nodes=3, max_nodes=hi, clean=True))
     k = draw(st.integers(2, 4))
     variants = [draw(G.variants(prog, feats=BASE_FEATS, x=i)) for i in range(k)]
+    # retries in several runs at once: nodes with a retry configuration fail a few times in every run
+    for n in prog['nodes']:
+        if (n.get('attempts') or 0) >= 2 and draw(st.integers(0, 2)) != 0:
+            for var in variants:
+                k_ = draw(st.integers(1, 3))
+                var['nodes'].setdefault(n['id'], {})['outcomes'] = ['ErrA'] * k_
     sched = draw(G.schedules(prog, max_tape=96))
     case = {'program': prog, 'variants': variants, 'sched': sched}
     if draw(st.integers(0, 3)) == 0:
@@ -128,8 +134,8 @@ class C08(Check):
             "run's tag (provenance digests include the run tag); non-trivial = completions of >=2 different runs were "
             'outstanding at once')
     floors = {'interleaved': 0.5}
-    quick_examples = 200
-    thorough_examples = 900
+    quick_examples = 700
+    thorough_examples = 2500
     assumptions = EngineCheck.assumptions
 
     def strategy(self, tier):
